@@ -141,19 +141,23 @@ class Ctx(object):
 
     # -- scratch space -----------------------------------------------------
     def fresh_dir(self):
-        """An empty directory private to this worker (wiped on every call)."""
-        d = os.path.join(self.tmpdir, "w%d" % os.getpid())
-        if os.path.isdir(d):
-            for n in os.listdir(d):
-                p = os.path.join(d, n)
-                try:
-                    os.unlink(p)
-                except IsADirectoryError:
-                    import shutil
+        """A new empty directory private to this worker; the previous one is removed.
 
-                    shutil.rmtree(p, ignore_errors=True)
-        else:
-            os.makedirs(d)
+        Every call returns a NEW path.  Re-using one path would let a connection that an earlier
+        execution left open (e.g. an importer that raised half-way) delete or roll back, when it is
+        finally garbage-collected, the journal of the current execution's database of the same name.
+        """
+        import shutil
+
+        base = os.path.join(self.tmpdir, "w%d" % os.getpid())
+        n = self.memo.get("_fresh_dir_n", 0) + 1
+        self.memo["_fresh_dir_n"] = n
+        prev = self.memo.get("_fresh_dir_prev")
+        if prev:
+            shutil.rmtree(prev, ignore_errors=True)
+        d = os.path.join(base, "e%d" % n)
+        os.makedirs(d)
+        self.memo["_fresh_dir_prev"] = d
         return d
 
 
